@@ -325,7 +325,7 @@ func verifC17BinlogOptions(dir string) fsbinlog.Options {
 	return fsbinlog.Options{PrefixPath: filepath.Join(dir, verifC17BlPrefix), Magic: verifC17BlMagic, WriteCallDelay: &d}
 }
 
-func verifC17ReadDisk(dir string) (st verifC17DiskState, err error) {
+func verifC17ReadDisk(dir, dbName string) (st verifC17DiskState, err error) {
 	st.DbRows = []int64{}
 	st.Recs = []verifC17Rec{}
 	// 1. binlog files through the real reader
@@ -349,7 +349,7 @@ func verifC17ReadDisk(dir string) (st verifC17DiskState, err error) {
 	}
 	st.Tail = total - col.pos
 	// 2. database file through a plain connection (rolls a hot journal back, as any open does)
-	dbp := filepath.Join(dir, verifC17DBName)
+	dbp := filepath.Join(dir, dbName)
 	if _, e := os.Stat(dbp); e != nil {
 		return st, nil
 	}
